@@ -203,6 +203,19 @@ class CFG:
             if raising:
                 self._edge(t, ctx.exc(), 'exc')
             after = self._new('join', label='after-loop')
+            if isinstance(s, ast.For) and isinstance(s.iter, (ast.Tuple, ast.List)) and len(s.iter.elts) == 1 \
+                    and not isinstance(s.iter.elts[0], ast.Starred):
+                # `for x in (v,):` runs its body exactly once (the form sa/inline.py gives a helper with early returns):
+                # no path skips the body and none repeats it
+                end = self._new('join', label='once-end')
+                lctx = _Ctx(exc=ctx.exc, ret=ctx.ret, brk=lambda: after, cont=lambda: end)
+                body_out = self._block(s.body, [(t, 'true')], lctx)
+                self._connect(body_out, end)
+                exits = [(end, 'next')]
+                if s.orelse:
+                    exits = self._block(s.orelse, exits, ctx)
+                self._connect(exits, after)
+                return [(after, 'next')]
             lctx = _Ctx(exc=ctx.exc, ret=ctx.ret, brk=lambda: after, cont=lambda: t)
             body_out = self._block(s.body, [(t, 'true')], lctx)
             self._connect([(p, 'back' if lab == 'next' else lab) for p, lab in body_out], t)
